@@ -33,7 +33,7 @@ ASSUMPTIONS = ["grid gaps shorter than the roll window (expiry - last trading da
                "chain spans cover the process clock (K3 is reported under C10 only)"]
 REQUIRED = ["C11:lead-resolution", "C11:never-past-last-trading", "C11:monotone", "C11:others-flat", "C11:not-held-at-expiry",
             "C11:roll-closes-old-lead", "C11:new-lead-at-own-quotes"]
-REQUIRED_CATS = ["resolution:copied-chain", "second-episode-on-same-chain", "rolled-while-holding-below-threshold", "another-chain-environment-later-in-time", "market-data-keyed-by-chain", "resolution:explicit-unsorted-list", "roll-inside-latency-window", "rolling:ES", "rolling:NK", "rolling:VX", "rolling:ZN", "rolled-while-holding"]
+REQUIRED_CATS = ["chain-marked-directly-on-the-broker", "resolution:copied-chain", "second-episode-on-same-chain", "rolled-while-holding-below-threshold", "another-chain-environment-later-in-time", "market-data-keyed-by-chain", "resolution:explicit-unsorted-list", "roll-inside-latency-window", "rolling:ES", "rolling:NK", "rolling:VX", "rolling:ZN", "rolled-while-holding"]
 REQUIRED_HITS = ["Broker.transact", "Broker.rebalance"]
 TECHNIQUE = "runtime monitoring: complete enumeration of roll instants against a linear-scan reference; holdings invariants after every step of rolling episodes"
 LEVEL_TEXT = ("Roll instants of every built-in class are enumerated completely per decade (exact instant and +-1us) against an "
@@ -209,11 +209,19 @@ def case(ctx, i, tier):
         prev_lead = None
         with ep.EpMonitor(sink) as mon:
             env.reset()
+            direct_marks = (not intraday) and rng.random() < 0.25
+            if direct_marks:
+                # the user marks 'the contract they trade' - the chain - directly on the broker, before the first trade
+                # and now and then between steps (a public Broker method, e.g. after pushing a quote by hand)
+                env.broker.marking_to_market(ch)
+                ctx.cat("chain-marked-directly-on-the-broker")
             done = ep.done_at_reset(env, sink)
             k = 0
             while not done:
                 if k > len(grid) + 2:
                     raise RuntimeError("step cap")
+                if direct_marks and rng.random() < 0.3:
+                    env.broker.marking_to_market(ch)
                 w = rng.choice([0.0, rng.uniform(-1.5, 1.5), rng.uniform(-1.5, 1.5)]) if not intraday else rng.choice([-1, 1]) * rng.uniform(0.3, 1.5)
                 if thr > 0 and not intraday and rng.random() < 0.35:
                     # a position SMALLER than the trading threshold is carried (possibly into a roll: the old lead must be
